@@ -134,6 +134,16 @@ class Closure:
         return 'Closure(%s)' % self.span
 
 
+class FnItem:
+    """A named function used as a value (`unary_op(a, negate::<i64>)`): called like a closure without captures."""
+
+    def __init__(self, text, owner=None, tybind=None):
+        self.text, self.owner, self.tybind = text, owner, dict(tybind or {})
+
+    def __repr__(self):
+        return 'FnItem(%s)' % self.text
+
+
 class Opaque:
     """A value the interpreter carries but never inspects (formatted messages, type descriptors...)."""
 
@@ -623,7 +633,22 @@ class VM:
             return self.read(m, fr, o[5:])
         if o.startswith('const '):
             return self.const(o[6:], fr)
+        if re.match(r'[A-Za-z][\w]*(::[A-Za-z_<][^ ]*)?(::<.*>)?$', o) and not re.match(r'_\d+', o) and self.fn_item_name(o, fr) is not None:
+            return FnItem(o, fr.func.name, getattr(fr, 'tybind', None))
         return self.read(m, fr, o)
+
+    def fn_item_name(self, text, fr=None):
+        """The crate function a function-item operand names: exact path, a function nested in the current one, or a unique tail."""
+        base = re.sub(r'::<.*>$', '', text)
+        if base in self.prog.funcs:
+            return base
+        if fr is not None:
+            nested = re.sub(r'@@\d+$', '', fr.func.name) + '::' + base.split('::')[-1]
+            if nested in self.prog.funcs:
+                return nested
+        c = self.prog.by_tail.get(base.split('::')[-1], [])
+        c = [n for n in c if n.endswith(base) or n.split('::')[-1] == base]
+        return c[0] if len(c) == 1 else None
 
     @staticmethod
     def _copy(v):
@@ -795,7 +820,7 @@ class VM:
             c = path[i]
             if c == '<' and (path[i - 2:i] == '::' or depth > 0 or (i > 0 and path[i - 1].isalnum())):
                 depth += 1
-            elif c == '>' and depth > 0:
+            elif c == '>' and depth > 0 and path[i - 1] not in '-=':
                 depth -= 1
                 if depth == 0 and out.endswith('::'):
                     out = out[:-2]
@@ -984,6 +1009,21 @@ class VM:
                 self.goto(fr, retbb)
                 return None
         # 2. closures called through Fn traits
+        if re.search(r'as Fn(Once|Mut)?<', callee) and args and isinstance(self.deref_value(args[0]), FnItem):
+            fi = self.deref_value(args[0])
+            packed = args[1]
+            fname = self.fn_item_name(fi.text, None) or self.fn_item_name(fi.text, fr)
+            if fname is None and fi.owner:
+                nested = re.sub(r'@@\d+$', '', fi.owner) + '::' + re.sub(r'::<.*>$', '', fi.text).split('::')[-1]
+                fname = nested if nested in self.prog.funcs else None
+            if fname is None:
+                raise Unsupported('function item ' + fi.text)
+            cargs = packed.items if isinstance(packed, Tup) else [packed]
+            r = self.push(m, fr, fname, cargs, dst, retbb)
+            tb = dict(fi.tybind)
+            tb.update(self.bind_generics(fname, self.subst_tyargs(fi.text, fr)))
+            m.frames[-1].tybind = tb
+            return r
         if re.search(r'as Fn(Once|Mut)?<', callee) and args and isinstance(self.deref_value(args[0]), Closure):
             clo = self.deref_value(args[0])
             packed = args[1]
@@ -1221,9 +1261,15 @@ class VM:
         # <T as Trait>::method[::<generic args>]
         base = callee
         if base.endswith('>') and '::<' in base:
-            i = base.rfind('::<')
-            if match_paren(base, i + 2) == len(base) - 1:
-                base = base[:i]
+            # the generic-argument list that closes at the end of the path (fn-pointer types inside it contain `->` and `::<` of their own)
+            for mm_ in re.finditer(r'::<', base):
+                i = mm_.start()
+                try:
+                    if match_paren(base, i + 2) == len(base) - 1:
+                        base = base[:i]
+                        break
+                except MirSyntax:
+                    continue
         mm = re.match(r'<(.+) as (?:std::convert::)?Into<(.+)>>::into$', base) or re.match(r'<(.+) as (?:std::convert::)?From<(.+)>>::from$', base)
         if mm:
             x, y = (mm.group(1), mm.group(2)) if base.endswith('::into') else (mm.group(2), mm.group(1))
